@@ -9,6 +9,9 @@ NOTE = ('Trusted: Lean 4.33 kernel; axioms within {propext, Classical.choice, Qu
         'Python generators/oracles; 64-bit usize.')
 
 CLAIMS = {
+ 'C05': dict(category='proof', technique='Lean 4 theorems (dispatch by type over a table, per-variant content round trips, GREASE iff RFC 8701, Unknown preservation, list induction, dispatcher agreement, empty-extension and overrun rejections) + regenerated implementation dispatch map re-checked by decide +kernel + exhaustive type sweep',
+   text='Theorems dispatch_known, content_roundtrip (all 26 typed variants), extension_roundtrip (typed / GREASE / Unknown through each dispatcher that decodes them), isGrease_iff (exactly the 16 RFC 8701 values), missing_arm_gives_unknown, extensions_roundtrip (lists by induction), extension_overrun / extensions_stop_at_overrun, empty_extension_with_data_rejected, typeOf_* and dispatchers_agree(_parse). Tie to the code: the type->variant map of the three dispatchers observed over ALL 65536 types and the TlsExtensionType::from map are regenerated into Gen/ExtDispatch.lean and proved equal to the specification in the kernel; every type x dispatcher is additionally executed against the Python specification and the model; all variants with well-formed contents from an independent encoder; tag-specific parsers swept over types.',
+   design_ref='DESIGN.md section 6 C05'),
  'C03': dict(category='proof', technique='Lean 4 theorems: payload round trip by induction over the message list (many1_complete_roundtrip), stop-at-first-bad, rejections, application data / heartbeat, one-step = two-step + exact-value correspondence',
    text='Theorems payload_roundtrip (any non-empty list of well-formed CCS / alert / handshake messages decodes to exactly those messages in order), payload_stops_at_first_bad (two-step remainder = undecoded tail), payload_first_bad_rejected, empty_payload_rejected, unknown_content_type_rejected (all types outside 20..24), appdata_payload (any payload = one blob), heartbeat_payload (padding as remainder), one_step_eq_two_step. Tie: independent encoder for every content type, derived two-step calls, stop/first-bad/empty/unknown-type families with exact or class oracles, corruptions.',
    design_ref='DESIGN.md section 6 C03'),
